@@ -301,3 +301,330 @@ def _learn_cmp(k, a, b, env):
             _tighten(env, name, None if lo is None else (lo + 1 if isint else lo), None, isint)
         elif kk == z3.Z3_OP_EQ:
             _tighten(env, name, lo, hi, isint)
+
+
+# ------------------------------------------------------------------------------------------------
+# libm as uninterpreted functions: sound lemma instances (every lemma is a theorem about the real functions).
+
+PI = z3.Real("PI")
+PI_BOUNDS = [PI > z3.RealVal("3.14159265358979"), PI < z3.RealVal("3.14159265358980")]
+import math as _math
+D2R_F = _F(_math.pi / 180.0)      # the f64 constant used by f64::to_radians
+R2D_F = _F(180.0 / _math.pi)      # the f64 constant used by f64::to_degrees
+LEMMA_SCHEMA = [
+    "range: |sin|,|cos| <= 1; 0 <= acos <= PI; |asin|,|atan| <= PI/2; -PI < atan2 <= PI",
+    "pythagoras: sin^2 t + cos^2 t = 1",
+    "inverse: -1<=x<=1 -> cos(acos x) = x, sin(acos x) >= 0, sin(asin x) = x, cos(asin x) >= 0; tan(atan x) = x, cos(atan x) > 0",
+    "quotient: tan t * cos t = sin t",
+    "lipschitz (L=1): |f u - f v| <= |u - v| for f in sin, cos, atan",
+    "monotone: cos strictly decreasing on [0,PI], sin strictly increasing on [-PI/2,PI/2], acos strictly decreasing on [-1,1], "
+    "asin/atan/tan strictly increasing on their principal domains",
+    "expansion: |acos x - acos y| >= |x - y|, |asin x - asin y| >= |x - y| on [-1,1]; |tan x - tan y| >= |x - y| on (-PI/2, PI/2)",
+    "injectivity: a,b in (-PI,PI], sin a = sin b, cos a = cos b -> a = b",
+    "parity: sin(-t) = -sin t, cos(-t) = cos t, atan(-t) = -atan t, tan(-t) = -tan t",
+    "atan2: (a,b) != 0 -> exists rho>0: a = rho sin(theta), b = rho cos(theta), theta = atan2(a,b)",
+    "constants: 3.14159265358979 < PI < 3.14159265358980; sin 0 = 0, cos 0 = 1",
+]
+
+
+def collect_apps(assertions):
+    """All applications of rs_* functions in the assertions: dict name -> list of arg tuples (z3 terms)."""
+    seen = set()
+    apps = {}
+    stack = [a for a in assertions if not isinstance(a, bool)]
+    while stack:
+        e = stack.pop()
+        i = e.get_id()
+        if i in seen:
+            continue
+        seen.add(i)
+        if z3.is_app(e):
+            nm = e.decl().name()
+            if nm.startswith("rs_") and e.num_args() > 0:
+                apps.setdefault(nm[3:], []).append(e)
+            stack.extend(e.children())
+    return apps
+
+
+def lemmas(assertions, rounds=2, lipschitz=True, monotone=True, parity=False, extra_terms=()):
+    """Instantiate the lemma schema over the UF applications occurring in the assertions (+ extra_terms)."""
+    sin, cos, tan = uf_decl("sin"), uf_decl("cos"), uf_decl("tan")
+    asin, acos, atan = uf_decl("asin"), uf_decl("acos"), uf_decl("atan")
+    atan2 = uf_decl("atan2", 2)
+    out = list(PI_BOUNDS)
+    out += [sin(z3.RealVal(0)) == 0, cos(z3.RealVal(0)) == 1]
+    cur = list(assertions) + list(extra_terms)
+    done = set()
+    rho_n = [0]
+    for rnd in range(rounds):
+        apps = collect_apps(cur + out)
+        new = []
+        for nm, lst in apps.items():
+            for e in lst:
+                if e.get_id() in done:
+                    continue
+                done.add(e.get_id())
+                t = e.arg(0)
+                if nm == "sin":
+                    new += [e >= -1, e <= 1, e * e + cos(t) * cos(t) == 1]
+                    if parity:
+                        new.append(sin(-t) == -e)
+                elif nm == "cos":
+                    new += [e >= -1, e <= 1, e * e + sin(t) * sin(t) == 1]
+                    if parity:
+                        new.append(cos(-t) == e)
+                elif nm == "tan":
+                    new += [e * cos(t) == sin(t)]
+                    if parity:
+                        new.append(tan(-t) == -e)
+                elif nm == "acos":
+                    new += [e >= 0, e <= PI, z3.Implies(z3.And(t >= -1, t <= 1), z3.And(cos(e) == t, sin(e) >= 0))]
+                elif nm == "asin":
+                    new += [e >= -PI / 2, e <= PI / 2, z3.Implies(z3.And(t >= -1, t <= 1), z3.And(sin(e) == t, cos(e) >= 0))]
+                elif nm == "atan":
+                    new += [e > -PI / 2, e < PI / 2, tan(e) == t, cos(e) > 0, sin(e) == t * cos(e),
+                            z3.Implies(t > 0, e > 0), z3.Implies(t < 0, e < 0), z3.Implies(t == 0, e == 0)]
+                    if parity:
+                        new.append(atan(-t) == -e)
+                elif nm == "atan2":
+                    a, b = e.arg(0), e.arg(1)
+                    rho_n[0] += 1
+                    rho = z3.Real("rho!%d" % rho_n[0])
+                    new += [e > -PI, e <= PI,
+                            z3.Implies(z3.Or(a != 0, b != 0), z3.And(rho > 0, a == rho * sin(e), b == rho * cos(e), rho * rho == a * a + b * b)),
+                            z3.Implies(z3.And(a == 0, b > 0), e == 0)]
+        out += new
+    apps = collect_apps(cur + out)
+    if lipschitz:
+        for nm in ("sin", "cos", "atan"):
+            lst = _uniq(apps.get(nm, []))
+            for i in range(len(lst)):
+                for j in range(i + 1, len(lst)):
+                    u, v = lst[i].arg(0), lst[j].arg(0)
+                    d = lst[i] - lst[j]
+                    out += [z3.Implies(u >= v, z3.And(d <= u - v, d >= v - u)), z3.Implies(u < v, z3.And(d <= v - u, d >= u - v))]
+    if monotone:
+        def mono(nm, lo, hi, incr):
+            lst = _uniq(apps.get(nm, []))
+            for i in range(len(lst)):
+                for j in range(i + 1, len(lst)):
+                    u, v = lst[i].arg(0), lst[j].arg(0)
+                    dom = z3.And(u >= lo, u <= hi, v >= lo, v <= hi)
+                    if incr:
+                        out.append(z3.Implies(dom, z3.And(z3.Implies(u < v, lst[i] < lst[j]), z3.Implies(u > v, lst[i] > lst[j]))))
+                    else:
+                        out.append(z3.Implies(dom, z3.And(z3.Implies(u < v, lst[i] > lst[j]), z3.Implies(u > v, lst[i] < lst[j]))))
+        mono("cos", z3.RealVal(0), PI, False)
+        mono("sin", -PI / 2, PI / 2, True)
+        mono("acos", z3.RealVal(-1), z3.RealVal(1), False)
+        mono("asin", z3.RealVal(-1), z3.RealVal(1), True)
+        lst = _uniq(apps.get("atan", []))
+        for i in range(len(lst)):
+            for j in range(i + 1, len(lst)):
+                u, v = lst[i].arg(0), lst[j].arg(0)
+                out.append(z3.And(z3.Implies(u < v, lst[i] < lst[j]), z3.Implies(u > v, lst[i] > lst[j])))
+        lst = _uniq(apps.get("tan", []))
+        for i in range(len(lst)):
+            for j in range(i + 1, len(lst)):
+                u, v = lst[i].arg(0), lst[j].arg(0)
+                dom = z3.And(u > -PI / 2, u < PI / 2, v > -PI / 2, v < PI / 2)
+                out.append(z3.Implies(dom, z3.And(z3.Implies(u < v, lst[i] < lst[j]), z3.Implies(u > v, lst[i] > lst[j]))))
+    return out
+
+
+def _uniq(lst):
+    seen, out = set(), []
+    for e in lst:
+        if e.get_id() not in seen:
+            seen.add(e.get_id())
+            out.append(e)
+    return out
+
+
+def taylor_sin_cos(t, lo, hi):
+    """Polynomial enclosures of sin t and cos t for an argument known to lie in [lo,hi] subset of [-PI/2, PI/2] (alternating series)."""
+    sin, cos = uf_decl("sin"), uf_decl("cos")
+    t2 = t * t
+    s3 = t - t * t2 / 6
+    s5 = s3 + t * t2 * t2 / 120
+    c2 = 1 - t2 / 2
+    c4 = c2 + t2 * t2 / 24
+    return [z3.Implies(z3.And(t >= 0, t <= 2), z3.And(sin(t) >= s3, sin(t) <= s5, sin(t) <= t)),
+            z3.Implies(z3.And(t <= 0, t >= -2), z3.And(sin(t) <= s3, sin(t) >= s5, sin(t) >= t)),
+            z3.Implies(z3.And(t >= -2, t <= 2), z3.And(cos(t) >= c2, cos(t) <= c4))]
+
+
+def purify(assertions, floor_lo=-2, floor_hi=3):
+    """Replace every rs_* application by a fresh real constant (innermost first) and add functional-consistency
+    (Ackermann) constraints; the result is a pure polynomial real-arithmetic problem for nlsat."""
+    cache = {}
+    table = {}     # (fname, tuple(arg ids)) -> (var, [args])
+    order = []
+    floors = []
+
+    def walk(e):
+        i = e.get_id()
+        if i in cache:
+            return cache[i]
+        if not z3.is_app(e) or e.num_args() == 0:
+            cache[i] = e
+            return e
+        if e.decl().kind() == z3.Z3_OP_TO_REAL and e.arg(0).decl().kind() == z3.Z3_OP_TO_INT:
+            v = walk(e.arg(0).arg(0))
+            fl = z3.Real("fl!%d" % len(floors))
+            floors.append((fl, v))
+            cache[i] = fl
+            return fl
+        ch = [walk(c) for c in e.children()]
+        nm = e.decl().name()
+        if nm.startswith("rs_"):
+            key = (nm, tuple(c.get_id() for c in ch))
+            if key not in table:
+                v = z3.Real("uf!%s!%d" % (nm[3:], len(table)))
+                table[key] = (v, ch)
+                order.append((nm, v, ch))
+            r = table[key][0]
+        else:
+            r = e.decl()(*ch)
+        cache[i] = r
+        return r
+
+    out = [walk(a) for a in assertions if not isinstance(a, bool)]
+    if any(isinstance(a, bool) and not a for a in assertions):
+        out.append(z3.BoolVal(False))
+    # floor(v) as a real variable: exact on the integer values -2..3, relaxed (fl <= v < fl+1) outside
+    for fl, v in floors:
+        cases = [z3.And(fl == k, v >= k, v < k + 1) for k in range(floor_lo, floor_hi + 1)]
+        cases.append(z3.And(v < floor_lo, fl <= v, v < fl + 1, fl <= floor_lo - 1))
+        cases.append(z3.And(v >= floor_hi + 1, fl <= v, v < fl + 1, fl >= floor_hi + 1))
+        out.append(z3.Or(cases))
+    by = {}
+    for nm, v, ch in order:
+        by.setdefault(nm, []).append((v, ch))
+    for nm, lst in by.items():
+        for i in range(len(lst)):
+            for j in range(i + 1, len(lst)):
+                (v1, a1), (v2, a2) = lst[i], lst[j]
+                out.append(z3.Implies(z3.And([x == y for x, y in zip(a1, a2)]), v1 == v2))
+    return out, {str(v): (nm, ch) for nm, v, ch in order}
+
+
+def check_nra(assertions, timeout_ms=30000, want_model=False):
+    """Decide a UF+polynomial query: purify, then nlsat; falls back to the default solver on unknown."""
+    t0 = time.time()
+    pure, table = purify(assertions)
+    res, model = "unknown", None
+    for tac in ("qfnra-nlsat", None):
+        s = z3.Tactic(tac).solver() if tac else z3.Solver()
+        s.set("timeout", int(timeout_ms))
+        s.add(*pure)
+        r = s.check()
+        if r == z3.unsat:
+            res = "unsat"
+            break
+        if r == z3.sat:
+            res, model = "sat", s.model()
+            break
+    return (res, model, table) if want_model else res
+
+
+def interval_lemmas(terms_with_bounds, widen=1e-9):
+    """For (arg_term, lo, hi) with numeric bounds: enclosures of sin/cos (and tan/atan if applicable) over [lo,hi],
+    computed with libm and widened by `widen` (trusted: libm accurate to << 1e-9)."""
+    sin, cos, tan = uf_decl("sin"), uf_decl("cos"), uf_decl("tan")
+    out = []
+    for t, lo, hi in terms_with_bounds:
+        lo, hi = float(lo), float(hi)
+        # sin
+        cands = [_math.sin(lo), _math.sin(hi)]
+        k = _math.ceil((lo - _math.pi / 2) / _math.pi)
+        x = _math.pi / 2 + k * _math.pi
+        while x <= hi:
+            cands.append(_math.sin(x))
+            x += _math.pi
+        out += [sin(t) >= z3.RealVal(_F(min(cands) - widen)), sin(t) <= z3.RealVal(_F(max(cands) + widen))]
+        cands = [_math.cos(lo), _math.cos(hi)]
+        k = _math.ceil(lo / _math.pi)
+        x = k * _math.pi
+        while x <= hi:
+            cands.append(_math.cos(x))
+            x += _math.pi
+        out += [cos(t) >= z3.RealVal(_F(min(cands) - widen)), cos(t) <= z3.RealVal(_F(max(cands) + widen))]
+        if lo > -_math.pi / 2 + 1e-3 and hi < _math.pi / 2 - 1e-3:
+            out += [tan(t) >= z3.RealVal(_F(_math.tan(lo) - widen * (1 + _math.tan(lo) ** 2) * 10)),
+                    tan(t) <= z3.RealVal(_F(_math.tan(hi) + widen * (1 + _math.tan(hi) ** 2) * 10))]
+    return out
+
+
+def lemmas_min(assertions, lip=(), mono=(), pyth=(), extra_terms=(), special=False, expand=(), neg=(), inj=()):
+    """Minimal, hint-driven lemma set: ranges + inverses for every application, Pythagoras / Lipschitz / monotonicity only
+    for the listed arguments / pairs. lip: [(fname, u, v)], mono: [(fname, u, v)], pyth: [t]."""
+    sin, cos, tan = uf_decl("sin"), uf_decl("cos"), uf_decl("tan")
+    asin, acos, atan = uf_decl("asin"), uf_decl("acos"), uf_decl("atan")
+    F = {"sin": sin, "cos": cos, "tan": tan, "asin": asin, "acos": acos, "atan": atan}
+    out = list(PI_BOUNDS)
+    if special:
+        out += [cos(PI) == -1, sin(PI) == 0, cos(z3.RealVal(0)) == 1, sin(z3.RealVal(0)) == 0, cos(PI / 2) == 0, sin(PI / 2) == 1]
+    apps = collect_apps(list(assertions) + list(extra_terms))
+    for nm, lst in apps.items():
+        for e in _uniq(lst):
+            t = e.arg(0)
+            if nm in ("sin", "cos"):
+                out += [e >= -1, e <= 1]
+            elif nm == "acos":
+                out += [e >= 0, e <= PI, z3.Implies(z3.And(t >= -1, t <= 1), z3.And(cos(e) == t, sin(e) >= 0, sin(e) <= 1))]
+            elif nm == "asin":
+                out += [e >= -PI / 2, e <= PI / 2, z3.Implies(z3.And(t >= -1, t <= 1), z3.And(sin(e) == t, cos(e) >= 0, cos(e) <= 1))]
+            elif nm == "atan":
+                out += [e > -PI / 2, e < PI / 2, tan(e) == t, cos(e) > 0, cos(e) <= 1, sin(e) == t * cos(e),
+                        sin(e) * sin(e) + cos(e) * cos(e) == 1,
+                        z3.Implies(t > 0, e > 0), z3.Implies(t < 0, e < 0), z3.Implies(t == 0, e == 0)]
+            elif nm == "tan":
+                out += [e * cos(t) == sin(t)]
+            elif nm == "atan2":
+                a, b = e.arg(0), e.arg(1)
+                rho = z3.Real("rho!%d" % e.get_id())
+                out += [e > -PI, e <= PI,
+                        z3.Implies(z3.Or(a != 0, b != 0), z3.And(rho > 0, a == rho * sin(e), b == rho * cos(e),
+                                                                 sin(e) * sin(e) + cos(e) * cos(e) == 1))]
+    for t in pyth:
+        out.append(sin(t) * sin(t) + cos(t) * cos(t) == 1)
+        out += [sin(t) >= -1, sin(t) <= 1, cos(t) >= -1, cos(t) <= 1]
+    for nm, u, v in lip:
+        d = F[nm](u) - F[nm](v)
+        out += [z3.Or(z3.And(u >= v, d <= u - v, d >= v - u), z3.And(u < v, d <= v - u, d >= u - v))]
+    for u, x in neg:
+        out.append(z3.Implies(u == -x, z3.And(sin(u) == -sin(x), cos(u) == cos(x))))
+    for a, b in inj:
+        out.append(z3.Implies(z3.And(a > -PI, a <= PI, b > -PI, b <= PI, sin(a) == sin(b), cos(a) == cos(b)), a == b))
+    for nm, u, v in expand:
+        # |acos x - acos y| >= |x - y| on [-1,1] (|d/dx acos| >= 1); same for asin; |tan x - tan y| >= |x - y| on (-PI/2, PI/2)
+        fu, fv = F[nm](u), F[nm](v)
+        if nm == "acos":
+            dom = z3.And(u >= -1, u <= 1, v >= -1, v <= 1)
+            out.append(z3.Implies(dom, z3.And(z3.Implies(u <= v, fu - fv >= v - u), z3.Implies(u > v, fv - fu >= u - v))))
+        elif nm == "asin":
+            dom = z3.And(u >= -1, u <= 1, v >= -1, v <= 1)
+            out.append(z3.Implies(dom, z3.And(z3.Implies(u <= v, fv - fu >= v - u), z3.Implies(u > v, fu - fv >= u - v))))
+        elif nm == "tan":
+            dom = z3.And(u > -PI / 2, u < PI / 2, v > -PI / 2, v < PI / 2)
+            out.append(z3.Implies(dom, z3.And(z3.Implies(u <= v, fv - fu >= v - u), z3.Implies(u > v, fu - fv >= u - v))))
+    for nm, u, v in mono:
+        fu, fv = F[nm](u), F[nm](v)
+        if nm == "cos":
+            dom, incr = z3.And(u >= 0, u <= PI, v >= 0, v <= PI), False
+        elif nm == "sin":
+            dom, incr = z3.And(u >= -PI / 2, u <= PI / 2, v >= -PI / 2, v <= PI / 2), True
+        elif nm == "acos":
+            dom, incr = z3.And(u >= -1, u <= 1, v >= -1, v <= 1), False
+        elif nm == "asin":
+            dom, incr = z3.And(u >= -1, u <= 1, v >= -1, v <= 1), True
+        elif nm == "tan":
+            dom, incr = z3.And(u > -PI / 2, u < PI / 2, v > -PI / 2, v < PI / 2), True
+        else:
+            dom, incr = z3.BoolVal(True), True
+        if incr:
+            out.append(z3.Implies(dom, z3.And(z3.Implies(u < v, fu < fv), z3.Implies(u > v, fu > fv), z3.Implies(u == v, fu == fv))))
+        else:
+            out.append(z3.Implies(dom, z3.And(z3.Implies(u < v, fu > fv), z3.Implies(u > v, fu < fv), z3.Implies(u == v, fu == fv))))
+    return out
